@@ -87,9 +87,9 @@ var props = []Prop{
 	{
 		ID: "C07",
 		Harnesses: []H{{Pkg: "ecs", Fn: "HC07_Before"}, {Pkg: "ecs", Fn: "HC07_After"}, {Pkg: "ecs", Fn: "HC07_Unregister", W: 4}, {Pkg: "ecs", Fn: "HDeep", Tier: "thorough"},
-			{Pkg: "ecs", Fn: "HC07_Before", Tags: "tiny", Tier: "thorough"}, {Pkg: "ecs", Fn: "HC07_After", Tags: "tiny", Tier: "thorough"}, {Pkg: "generic", Fn: "HC18_Builders"}},
+			{Pkg: "ecs", Fn: "HC07_Before", Tags: "tiny", Tier: "thorough"}, {Pkg: "ecs", Fn: "HC07_After", Tags: "tiny", Tier: "thorough"}, {Pkg: "generic", Fn: "HC18_Builders"}, {Pkg: "ecs", Fn: "HManyTables"}, {Pkg: "ecs", Fn: "HBig", W: 4}},
 		Conform: stdConform,
-		Bounds:  "filter registered before any table exists (relation targets = handles issued later) or after one of 11 prefixes (incl. retired tables, dead targets, re-issued target ids, self-target, Reset over populated relation tables); 9 filter kinds (All, mask, without, exclusive, relation filters with any issued/zero/future target, and a relation filter whose component filter also matches non-relation tables); then 1 operation out of 10: table creation, relation-table creation, RemoveEntity, Relations.Set, Reset, Reset + re-issue + new child, and Batch.RemoveEntities / Batch.Exchange(Q) / Batch.SetRelation(Q) THROUGH the registered filter; oracle: registered vs original filter on the same world (same entities, same Count), model for batch effects, cache clauses of the structural invariant; Unregister/double register/use after unregister on 3 registrations; 2 configurations (thorough 4; C10 thorough 3); registered generic filters (generic.FilterN.Register / Unregister inside symbolic builder sequences, incl. fixed relation targets) by HC18_Builders, run here too",
+		Bounds:  "filter registered before any table exists (relation targets = handles issued later) or after one of 11 prefixes (incl. retired tables, dead targets, re-issued target ids, self-target, Reset over populated relation tables); 9 filter kinds (All, mask, without, exclusive, relation filters with any issued/zero/future target, and a relation filter whose component filter also matches non-relation tables); then 1 operation out of 10: table creation, relation-table creation, RemoveEntity, Relations.Set, Reset, Reset + re-issue + new child, and Batch.RemoveEntities / Batch.Exchange(Q) / Batch.SetRelation(Q) THROUGH the registered filter; oracle: registered vs original filter on the same world (same entities, same Count), model for batch effects, cache clauses of the structural invariant; Unregister/double register/use after unregister on 3 registrations; 2 configurations (thorough 4; C10 thorough 3); registered generic filters (generic.FilterN.Register / Unregister inside symbolic builder sequences, incl. fixed relation targets) by HC18_Builders, run here too; HManyTables: a registered filter whose table list grows past one page (36 relation tables), shrinks below it and grows again; HBig: 300 registrations (filter ids beyond one byte)",
 		Outside: "more than one operation after registration beyond the prefixes; logic-combination filters (the cache only calls Matches, decided in C04)",
 	},
 	{
@@ -132,7 +132,7 @@ var props = []Prop{
 		ID: "C20",
 		Harnesses: []H{{Pkg: "generic", Fn: "HC20_Resources"}, {Pkg: "generic", Fn: "HC20_Resources", Tags: "tiny", Tier: "thorough"}},
 		Conform: stdConform,
-		Bounds:  "4 resource types placed at IDs 0, 1 or 17, 63 or 64 (31/32 in tiny), and the last ID (255 / 63) by filler registrations that cross every 16-ID chunk and 64-bit word; symbolic sequences of 2 (thorough 3) operations out of: Add (World.Resources, generic.Resource, ecs.AddResource), Remove (World.Resources, generic.Resource), registration of a further type, entity creation + component registration, entity removal, lock/unlock by a query, Reset; after every step Has/Get of every registered type through all three APIs against the model (exact pointer identity, nil when absent), panics exactly for duplicate Add / missing Remove, no component ids consumed",
+		Bounds:  "4 resource types placed at IDs 0, 1 or 16 or 17, 63 or 64 (31/32 in tiny), and the last ID (255 / 63) by filler registrations that cross every 16-ID chunk and 64-bit word; symbolic sequences of 2 (thorough 3) operations out of: Add (World.Resources, generic.Resource, ecs.AddResource), Remove (World.Resources, generic.Resource), registration of a further type, entity creation + component registration, entity removal, lock/unlock by a query, Reset; after every step Has/Get of every registered type through all three APIs against the model (exact pointer identity, nil when absent), panics exactly for duplicate Add / missing Remove, no component ids consumed",
 		Outside: "more than 4 distinct resource types holding values at once (all 256 ids are registered by the fillers); sequences longer than 4 operations",
 	},
 	{
@@ -161,7 +161,7 @@ var props = []Prop{
 		Harnesses: []H{{Pkg: "ecs", Fn: "HC13_Determinism", MapOrder: true}, {Pkg: "ecs", Fn: "HC13_Determinism", MapOrder: true, Tags: "tiny", Tier: "thorough"}},
 		Conform: stdConform,
 		Census:  true,
-		Bounds:  "self-composition: two freshly created worlds (recording listeners and a registered filter installed) receive the same prefix (3, thorough 6) and the same 1 (thorough 2) operation(s) out of 9 kinds (creation, creation with target, removal, exchange, retarget, batch removal by filter, batch creation, Reset, batch exchange) with arguments picked once, plus three scripted scenarios (a target with empty tables in three nodes dies while a registered filter lists them; several targets die in one batch call and their table slots are re-used; Reset over a registered filter whose list interleaves relation tables with surviving tables - there world 1 ranges over maps in insertion order and world 2 in every order, which is as complete and keeps the path count linear); handles, event sequences, query iteration order for 6 filters (plain and registered) and entity dumps must be equal in both worlds; in the engine every range over a map picks its next entry by a solver-chosen index (entries deleted during the range are skipped as the language specifies), independently in the two worlds, so a dependence on map order yields a concrete witness order (replayed natively 50 times, Go randomises map iteration); the SSA census of map-range sites, pointer-to-integer conversions, go/select statements and time/rand callees in the four library packages is reported in the evidence",
+		Bounds:  "self-composition: two freshly created worlds (recording listeners and a registered filter installed) receive the same prefix (3, thorough 6) and the same 1 (thorough 2) operation(s) out of 9 kinds (creation, creation with target, removal, exchange, retarget, batch removal by filter, batch creation, Reset, batch exchange) with arguments picked once, plus four scripted scenarios (Reset of a relation node with more retired than live tables; a target with empty tables in three nodes dies while a registered filter lists them; several targets die in one batch call and their table slots are re-used; Reset over a registered filter whose list interleaves relation tables with surviving tables - there world 1 ranges over maps in insertion order and world 2 in every order, which is as complete and keeps the path count linear); handles, event sequences, query iteration order for 6 filters (plain and registered) and entity dumps must be equal in both worlds; in the engine every range over a map picks its next entry by a solver-chosen index (entries deleted during the range are skipped as the language specifies), independently in the two worlds, so a dependence on map order yields a concrete witness order (replayed natively 50 times, Go randomises map iteration); the SSA census of map-range sites, pointer-to-integer conversions, go/select statements and time/rand callees in the four library packages is reported in the evidence",
 		Outside: "garbage-collection timing and cross-process effects other than map iteration order (the engine has no collector and one process); ordering by address is covered only by the census (no pointer-to-integer conversion exists in the library)",
 	},
 	{
